@@ -35,6 +35,14 @@ def gen_rt(seed, idx):
             to = rng.choice([20, 100, 500, 1500, 2500])
             steps.append({"op": "lock", "conn": 2 + i, "key": 1, "lid": 10 + i, "tf": 0x0400, "ef": 0x0400, "to": to, "ex": rng.choice([30, 200]), "cnt": 0, "nodup": True})
             maxms = max(maxms, to + 2300)
+        # the two timers of one request in DIFFERENT units (each wheel is chosen by the unit flag of its own field)
+        for i in range(rng.randint(1, 3)):
+            if rng.random() < 0.5:
+                steps.append({"op": "lock", "conn": 7 + i, "key": 1, "lid": 20 + i, "tf": 0, "ef": 0x0400, "to": rng.choice([1, 2]), "ex": rng.choice([200, 900]), "cnt": 0, "nodup": True})
+                maxms = max(maxms, 2000 + 2300)
+            else:
+                steps.append({"op": "lock", "conn": 7 + i, "key": 1, "lid": 20 + i, "tf": 0x0400, "ef": 0, "to": rng.choice([300, 800, 1500]), "ex": 1, "cnt": 0, "nodup": True})
+                maxms = max(maxms, 1500 + 2300)
     else:
         # C10: a persisted ms hold on a node that stops being the leader must not be expired by its own clock
         ex = rng.choice([50, 200, 600, 1500])
